@@ -2,6 +2,7 @@ import KoordVerif.Model.C08
 import KoordVerif.Proofs.C08ExtConcThm
 import KoordVerif.Proofs.C08ExtGlue
 import KoordVerif.Proofs.C08ExtAgg
+import KoordVerif.Proofs.C08ExtFw2
 /-
 C08 — property theorems (DESIGN.md §4 C08).
  1. deletePod is the exact inverse of addPod (same metric in force)                  `delete_add_inverse`
@@ -17,6 +18,13 @@ C08 — property theorems (DESIGN.md §4 C08).
     `conc_assign_vs_node_delete_keeps_pod`, `conc_metric_vs_pod_delete_keeps_metric`; the pre-repair statement order,
     a single attempt, a missing re-check under the lock, and two cleanups during one call each lose an event
     (`conc_*_counterexample`)
+ 8. the plugin as the SCHEDULER drives it (Model/C08Fw.lean: PreFilter status + the framework rule "Skip => the plugin's
+    Filter is not run for any node of the cycle"): PreFilter never skips, so the framework's verdict for a node IS the
+    Filter verdict and clause 3 holds for it (`prefilter_never_skips`, `framework_verdict_eq_filter`,
+    `framework_pass_sound`); for ANY node-blind PreFilter: the framework is faithful iff every Skip is safe
+    (`framework_faithful_iff_safe_skip`), and a safe Skip exists for DaemonSet pods only (`skip_safe_only_for_daemonset`,
+    `daemonset_skip_is_safe`) - in particular "skip when the plugin-level profile has no non-zero threshold" is unsafe:
+    a node's usage-thresholds annotation is merged in by Filter alone (`disabled_profile_skip_counterexample`)
 -/
 namespace KoordVerif.C08
 
@@ -712,7 +720,76 @@ theorem agg_profile_missing_cell (cfg : Cfg) (n : Node) (m : Metric) (typ dur : 
 example : exceeds exactFloat [50, 50, 50] [10, 10, 60] [100, 100, 100] = true ∧
     exceeds exactFloat [50, 50, 0] [10, 10, 60] [100, 100, 100] = false := by decide
 
+/-! ### 8. the plugin under the scheduler framework (Model/C08Fw.lean; proofs in Proofs/C08ExtFw*.lean) -/
+
+/-- Plugin.PreFilter of the source answers Success for every pod and every configuration: it NEVER skips. -/
+theorem prefilter_never_skips (q : FilterQ) : preFilter q = .success := rfl
+
+/-- in particular not when a node's own thresholds may apply, i.e. for every pod that is not a DaemonSet pod
+(for those pods some node rejects whatever the plugin-level thresholds are: `skip_safe_only_for_daemonset`). -/
+theorem prefilter_never_skips_when_node_thresholds_may_apply (q : FilterQ) (_h : q.daemon = false) :
+    preFilter q ≠ .skip := by
+  rw [prefilter_never_skips]; exact fun h => PreStatus.noConfusion h
+
+/-- hence the verdict of the framework for a node is the verdict of Plugin.Filter for that node -/
+theorem framework_verdict_eq_filter (cfg : Cfg) (c : Cache) (q : FilterQ) : fwFilter cfg c q = filter cfg c q := rfl
+
+/-- and clause 3 holds for the FRAMEWORK's verdict: a node that passes the cycle is within the rounded threshold on
+the from-scratch estimate, for the thresholds in force ON THAT NODE (annotation merged in). -/
+theorem framework_pass_sound (cfg : Cfg) (evs : List Ev) (q : FilterQ) (m : Metric)
+    (hn : q.hasNode = true) (hd : q.daemon = false) (ht : vEmpty (selProfile cfg q).2.1 = false)
+    (hm : ((run cfg evs).get q.node).metric = some m)
+    (hx : expirySkip q m = false) (hi : m.hasInfo = true)
+    (hpass : fwFilter cfg (run cfg evs) q = 0) :
+    ∃ est, existingFor cfg
+        { (run cfg evs).get q.node with sums := scratch cfg m (reportTime m) ((run cfg evs).get q.node).pods } q
+          = some (m, est) ∧
+      Within (fun t e a => cfg.fl.roundPct e a ≤ t) (selProfile cfg q).2.1 (vadd est (estimateVec cfg q.pod)) (allocOf q) :=
+  filter_pass_sound cfg evs q m hn hd ht hm hx hi (by rw [← framework_verdict_eq_filter]; exact hpass)
+
+/-- the general rule, for ANY PreFilter that never rejects: the framework answers as Filter does on every node
+iff PreFilter skips only where Filter passes on every node. -/
+theorem framework_faithful_iff_safe_skip (pf : FilterQ → PreStatus) (hr : ∀ q, pf q ≠ .reject) :
+    FwFaithful pf ↔ SafeSkip pf :=
+  ⟨safe_of_fwFaithful pf, fwFaithful_of_safe pf hr⟩
+
+/-- a PreFilter that cannot see the node (it is called once per cycle, before any node) can safely skip for
+DaemonSet pods ONLY: for every other pod, whatever the plugin-level thresholds, expiry switches and the pod are,
+there is a node (annotation with thresholds, fresh report, high usage) that Filter rejects. -/
+theorem skip_safe_only_for_daemonset (pf : FilterQ → PreStatus) (hb : NodeBlind pf) (hs : SafeSkip pf) (q : FilterQ)
+    (h : pf q = .skip) : q.daemon = true :=
+  skip_only_daemonset pf hb hs q h
+
+/-- and that one is safe (a behaviour-preserving variant) -/
+theorem daemonset_skip_is_safe : SafeSkip preFilterDaemonSkips ∧ NodeBlind preFilterDaemonSkips := by
+  refine ⟨?_, fun _ _ => rfl⟩
+  intro cfg c q hn h
+  have hd : q.daemon = true := by
+    cases hq : q.daemon with
+    | true => rfl
+    | false => simp [preFilterDaemonSkips, hq] at h
+  exact filter_daemonset cfg c q hn hd
+
+/-- the fourth-round seeded change (Skip also when the plugin-level profile has no non-zero threshold):
+cluster-wide thresholds {cpu: 0}, node annotated cpu <= 50 %, node at 87 %: Filter rejects (1), the framework passes (0). -/
+theorem disabled_profile_skip_counterexample :
+    preFilterDisabledSkips 1 fwQ = .skip ∧ filter fwCfg fwCache fwQ = 1 ∧
+      fwVerdict (preFilterDisabledSkips 1 fwQ) fwCfg fwCache fwQ = 0 ∧ ¬ SafeSkip (preFilterDisabledSkips 1) := by
+  have h1 : preFilterDisabledSkips 1 fwQ = .skip := by decide
+  have h2 : filter fwCfg fwCache fwQ = 1 := by decide
+  refine ⟨h1, h2, by rw [h1]; rfl, ?_⟩
+  intro hs
+  have := hs fwCfg fwCache fwQ rfl h1
+  rw [h2] at this
+  exact absurd this (by decide)
+
 /-! ### non-vacuity -/
+
+/-- the hypotheses of `framework_pass_sound` are satisfiable with thresholds that come from the node annotation only -/
+example : fwFilter fwCfg fwCache { fwQ with alloc := [20000] } = 0 ∧
+    vEmpty (selProfile fwCfg { fwQ with alloc := [20000] }).2.1 = false ∧
+    profileDisabled 1 fwQ.args = true := by decide
+
 
 example : RoundOK exactFloat.roundPct := by
   refine ⟨?_, ?_⟩ <;> intro e a ha he <;> simp only [exactFloat]
